@@ -125,3 +125,29 @@ def sany(module):
     p = subprocess.run(cmd, cwd=SPEC, stdout=subprocess.PIPE, stderr=subprocess.STDOUT, universal_newlines=True, timeout=120)
     ok = p.returncode == 0 and "Semantic errors" not in p.stdout and "Parse Error" not in p.stdout and "Fatal" not in p.stdout
     return ok, p.stdout
+
+
+def batch_validate(module, cfg, traces, timeout=1200, env=None):
+    """Validate many recorded traces in one TLC run (spec pattern: tid / l variables, Progress constraint, Report post-condition).
+    Returns (TLCResult, [(reached, total, complete)] per trace)."""
+    import re as _re
+    d = scratch("traces-")
+    try:
+        path = os.path.join(d, "traces.ndjson")
+        with open(path, "w") as f:
+            for t in traces:
+                f.write(json.dumps(t) + "\n")
+        e = {"TRACE_FILE": path}
+        e.update(env or {})
+        res = run(module, cfg, env=e, workers=1, timeout=timeout, keep=True)
+        rep = {}
+        for mm in _re.finditer(r'<<"TRACE", (\d+), (\d+), (\d+), (\d+)>>', res.stdout):
+            rep[int(mm.group(1))] = (int(mm.group(2)), int(mm.group(3)), int(mm.group(4)))
+        cleanup(res)
+        if res.violated:
+            raise TLCError("trace validation: TLC reports %s violated\n%s" % (res.violated, res.stdout[-1500:]))
+        if len(rep) != len(traces):
+            raise TLCError("trace validation: TLC reported %d of %d traces\n%s" % (len(rep), len(traces), res.stdout[-1500:]))
+        return res, [rep[i + 1] for i in range(len(traces))]
+    finally:
+        shutil.rmtree(d, ignore_errors=True)
